@@ -167,6 +167,7 @@ theorem runOp_frame (fault : Option Nat) (rol : Bool) (o : Op P) (s : St P) :
     have := stage_frame fault p { s with files := (fun q => if q = p then some b else s.files q) }
     simp only [runOp]
     split <;> (rename_i h; rw [h] at this; exact this)
+  | writeIgnored p b => simp [runOp, call, Frame]
   | openOnly p b => simp [runOp, Frame]
   | writeNoDir p => simp [runOp, Frame]
   | raise => simp [runOp, Frame]
